@@ -18,7 +18,7 @@ RULE = ("twin execution: every top-level call of a public geometric operation is
         "over 2D/3D pools of single objects, collections, polytopes, quadrics and transformations, plus the repository's tests; == is checked "
         "for multiples / clearly different objects / symmetry / reflexivity on lattices. Non-trivial = the base call returned normally and the "
         "scaled operand is not a unit multiple; distinct by (operation, operand digests, argument position, lambda)."
-        " Every constructor and alternative constructor (classmethods wrapped, __init__ through a recorded call) in general and special position (chords parallel to the tangent of from_tangent, from_foci off the symmetry axes); the same objects handed over in another memory layout (Fortran order, transposed views, negative strides) with homogeneous coordinates other than 1.")
+        " Every constructor and alternative constructor (classmethods wrapped, __init__ through a recorded call) in general and special position (chords parallel to the tangent of from_tangent, from_foci off the symmetry axes); the same objects handed over in another memory layout (Fortran order, transposed views, negative strides) with homogeneous coordinates other than 1; cross ratios whose first two arguments coincide and angles of parallel lines (degenerate positions with an answer of their own) under the twin monitor.")
 SHARDS = (8, 16)
 REQUIRED = ["twin", "eq.multiple", "eq.different"]
 ASSUMPTIONS = ["|lambda| in [1e-3, 1e3]: the library's absolute tolerances (1e-8) are by design not scale free", "metric operations are judged on finite operands only"]
